@@ -1,5 +1,5 @@
 (* C10 — byte-order specs gate files; ident defects are reported as what they are. *)
-Require Import V.Base.Prim V.Model.Structs V.Model.File V.Model.ElfBytes V.Proofs.FileP V.Proofs.AnyP.
+Require Import V.Base.Prim V.Model.Structs V.Model.File V.Model.ElfBytes V.Proofs.FileP V.Proofs.AnyP V.Model.ErrFmt V.Proofs.ErrFmtP.
 Open Scope N_scope.
 
 (* the decision table: bad magic -> BadMagic(bytes found); else version byte != 1 ->
@@ -52,6 +52,15 @@ Proof. exact respec_queries. Qed.
 Theorem C10_any_common : forall f eb,
   find_common_data f (respec (any_of (e_spec (eb_ehdr eb))) eb) = find_common_data f eb.
 Proof. exact respec_common. Qed.
+
+(* how a reported defect reads (impl Display for ParseError, Model/ErrFmt.v): every variant that
+   does not wrap a standard-library error has its own message and no source, and the numbers in
+   a message read back to the payload, so the message identifies what was found *)
+Theorem C10_message_or_source : forall e, perr_display e = None <-> perr_has_source e = true.
+Proof. exact display_or_source. Qed.
+Theorem C10_message_numbers : forall n, n < 2 ^ 64 ->
+  value_of 10 (dec n) 0 = n /\ value_of 16 (hexu n) 0 = n.
+Proof. intros n H. split; [exact (dec_roundtrip n H)|exact (hex_roundtrip n H)]. Qed.
 
 Example C10_example :
   let d := of_list [x7f; x45; x4c; x46; x02; x01; x01; x03; x00; x00; x00; x00; x00; x00; x00; x00] in
